@@ -3,6 +3,7 @@ package main
 import (
 	"encoding/json"
 	"fmt"
+	"sort"
 	"strconv"
 	"strings"
 	"sync"
@@ -25,7 +26,7 @@ type c07State struct {
 	Exists bool
 	W      string // id of the content write that produced the current generation
 	Meta   int64  // metageneration
-	Tag    string // metadata "t" (set by patches)
+	Tag    string // user metadata as "key=value;" pairs sorted by key (each client patches its own key: merges must keep the others)
 }
 
 type c07In struct {
@@ -100,7 +101,7 @@ var c07Model = porcupine.Model{
 			}
 			if c07CondHolds(s, in) {
 				s.Meta++
-				s.Tag = in.Id
+				s.Tag = c07MergeTag(s.Tag, in.Via, in.Id)
 				return out.Class == "ok" && (out.Meta == -1 || out.Meta == s.Meta), s // -1: the response was overtaken by a later write
 			}
 			return out.Class == "precond", s
@@ -128,6 +129,31 @@ var c07Model = porcupine.Model{
 	DescribeOperation: func(input, output interface{}) string { return fmt.Sprintf("%v -> %+v", input, output) },
 }
 
+// c07MergeTag sets key=value in the canonical metadata string.
+func c07MergeTag(tag, key, value string) string {
+	m := map[string]string{}
+	for _, kv := range strings.Split(tag, ";") {
+		if k, v, ok := strings.Cut(kv, "="); ok {
+			m[k] = v
+		}
+	}
+	m[key] = value
+	return c07CanonMeta(m)
+}
+
+func c07CanonMeta(m map[string]string) string {
+	keys := make([]string, 0, len(m))
+	for k := range m {
+		keys = append(keys, k)
+	}
+	sort.Strings(keys)
+	out := ""
+	for _, k := range keys {
+		out += k + "=" + m[k] + ";"
+	}
+	return out
+}
+
 func c07Class(r *drive.Resp) string {
 	switch {
 	case r.Err != "":
@@ -152,7 +178,7 @@ type c07Op struct {
 }
 
 func runC07(run *common.Run) {
-	run.Rule = "case = one history of 3-6 HTTP client goroutines x 5-8 operations on 2 object names of one bucket (memory store and file store): unconditional uploads with unique content, uploads conditioned on non-existence or on a generation the client learned earlier, metageneration-conditioned patches writing a unique metadata tag, conditioned deletes, compose into and copy onto the contended name from per-operation static sources, metadata GETs and media GETs; recorded at the HTTP client boundary with a logical clock, with bounded holds at the handlers' check-then-act yield points (*.afterCheck, copy.locked) and between the file store's two writes (fs.add.*). Oracle: porcupine per object against a sequential object model in which a generation is identified by the unique write that created it; plus monitors: one generation number never shows two contents and one write never shows two generations; among writers conditioned on the same state at most one succeeds (follows from the model, counted). Non-trivial = history with at least two overlapping operations on one object and at least one conditioned write that lost; distinct by history."
+	run.Rule = "case = one history of 3-6 HTTP client goroutines x 5-8 operations on 2 object names of one bucket (memory store and file store): unconditional uploads with unique content, uploads conditioned on non-existence or on a generation the client learned earlier, metageneration-conditioned patches each merging a unique value under the patching client's own metadata key (a patch must keep the other keys), conditioned deletes, compose into and copy onto the contended name from per-operation static sources, metadata GETs and media GETs; recorded at the HTTP client boundary with a logical clock, with bounded holds at the handlers' check-then-act yield points (*.afterCheck, copy.locked) and between the file store's two writes (fs.add.*). Oracle: porcupine per object against a sequential object model in which a generation is identified by the unique write that created it; plus monitors: one generation number never shows two contents and one write never shows two generations; among writers conditioned on the same state at most one succeeds (follows from the model, counted). Non-trivial = history with at least two overlapping operations on one object and at least one conditioned write that lost; distinct by history."
 	run.Assumptions = []string{"porcupine v1.3.0", "an upload's own JSON response is used only to learn the generation when it reports the uploader's own MD5 (the handler reads it back after releasing the object lock)", "holds are bounded sleeps, never a verdict"}
 	var hits sync.Map
 	var holds, seq int64
@@ -252,7 +278,7 @@ func c07History(run *common.Run, idx int, store string) {
 				sc = scripted{obj: obj, in: c07In{Kind: "WRITE", Id: id, Via: "copy"}, srcs: []string{a}}
 				register(id, "src "+a+" for "+id+"|")
 			case x < 12:
-				sc = scripted{obj: obj, in: c07In{Kind: "PATCH", Id: "tag-" + id, Cond: common.Pick(r, []string{"", "gen"}), CondM: int64(r.Intn(2))}} // CondM 1 = use the last metageneration learned
+				sc = scripted{obj: obj, in: c07In{Kind: "PATCH", Id: "tag-" + id, Via: fmt.Sprintf("k%d", c%3), Cond: common.Pick(r, []string{"", "gen"}), CondM: int64(r.Intn(2))}} // CondM 1 = use the last metageneration learned; Via = the metadata key this client writes
 			case x < 14:
 				sc = scripted{obj: obj, in: c07In{Kind: "DELETE", Cond: common.Pick(r, []string{"", "gen", "gen"})}}
 			case x < 17:
@@ -358,13 +384,13 @@ func c07History(run *common.Run, idx int, store string) {
 					rsp := cl.Rewrite(B, sc.srcs[0], B, name)
 					out.Class = c07Class(rsp)
 				case in.Kind == "PATCH":
-					body, _ := json.Marshal(map[string]any{"metadata": map[string]string{"t": in.Id}})
+					body, _ := json.Marshal(map[string]any{"metadata": map[string]string{in.Via: in.Id}})
 					rsp := cl.Patch(B, name, body, q)
 					out.Class = c07Class(rsp)
 					if rsp.OK() {
 						if m, err := rsp.JSON(); err == nil {
 							// the handler reads the metadata back after releasing the lock: only trust it if it still shows this tag
-							if md, _ := m["metadata"].(map[string]any); md != nil && md["t"] == in.Id {
+							if md, _ := m["metadata"].(map[string]any); md != nil && md[in.Via] == in.Id {
 								out.Meta, _ = drive.Int64Field(m, "metageneration")
 								kn[sc.obj].meta = out.Meta
 							} else {
@@ -397,7 +423,11 @@ func c07History(run *common.Run, idx int, store string) {
 						}
 						out.Meta, _ = drive.Int64Field(m, "metageneration")
 						if md, _ := m["metadata"].(map[string]any); md != nil {
-							out.Tag, _ = md["t"].(string)
+							mm := map[string]string{}
+							for k, v := range md {
+								mm[k], _ = v.(string)
+							}
+							out.Tag = c07CanonMeta(mm)
 						}
 						g, _ := drive.Int64Field(m, "generation")
 						if out.W != "?" {
